@@ -452,10 +452,11 @@ theorem after_deterministic (ρ₁ ρ₂ : Orders) (v₁ : OrdersValid ρ₁) (v
     (hmap : ∀ s r vs, rw s = some r → r.validators = some vs → (vs.map Prod.fst).Nodup) :
     afterIn ρ₁ hd rw ids refunds s = afterIn ρ₂ hd rw ids refunds s := by
   unfold afterIn
-  have e1 : refundAddIn (ρ₁.refund (groupRefunds refunds [])) s = refundAddIn (ρ₂.refund (groupRefunds refunds [])) s :=
-    refund_add_order_irrelevant _ _ s ((v₁.refund _).trans (v₂.refund _).symm)
+  generalize calcDifficulty hd (specialHeights hd s) = s0
+  have e1 : refundAddIn (ρ₁.refund (groupRefunds refunds [])) s0 = refundAddIn (ρ₂.refund (groupRefunds refunds [])) s0 :=
+    refund_add_order_irrelevant _ _ s0 ((v₁.refund _).trans (v₂.refund _).symm)
   simp only [e1]
-  generalize refundAddIn (ρ₂.refund (groupRefunds refunds [])) s = s1
+  generalize refundAddIn (ρ₂.refund (groupRefunds refunds [])) s0 = s1
   rw [rewardStep_deterministic ρ₁ ρ₂ v₁ v₂ (rw s1) s1 (hmap s1)]
   generalize rewardStepIn ρ₂ (rw s1) s1 = s2
   have e3 : checkAndMoveIn hd.height (ρ₁.checkMove (refundList s2 hd.height ids)) s2
